@@ -20,18 +20,11 @@ RULE = ("cases = option configurations (estimator, n cells, n_landmarks, explici
         "ranks x 9 spellings on DensityEstimator (quick: boundary rows + seeded slice; thorough: all 6336 cells), the "
         "other three estimators and the uncertainty x optimizer x sigma axes seeded. distinct = distinct configuration; "
         "non-trivial = accepted configuration that fits, or a refusal decided by at least two interacting options")
-PARTIAL = ["no_internal is proved at full strength for the Density / Dimensionality / TimeSensitive estimators; for the "
-           "FunctionEstimator only outside the recorded region (noise array / uncertainty request that does not fit the number "
-           "of conditioning points): theorem no_internal_partial + three counterexamples, each a known finding replayed on the "
-           "implementation",
-           "FunctionEstimator performs no validate_params at all: accepted contradictory configurations are reported by the "
-           "oracle (known finding C15:function-no-validation); the model mirrors the missing validation "
-           "(function_silent_contradiction_counterexample)",
-           "negative ranks pass validate_params and are read as Nystroem requests (rules_nystroem_documented_partial + "
-           "negative_rank_counterexample; known finding C15:negative-rank-accepted)",
-           "the number of columns a fractional Nystroem rank keeps depends on the spectrum (property C10): it is read back "
+PARTIAL = ["the number of columns a fractional Nystroem rank keeps depends on the spectrum (property C10): it is read back "
            "from the implementation, handed to the model as `kept`, and checked only for 1 <= kept <= bound",
-           "data-stage failures (fewer than 2 cells etc.) are modelled only as 'n < 2 is refused'; degenerate data are C20"]
+           "data-stage failures (fewer than 2 cells etc.) are modelled only as 'n < 2 is refused'; degenerate data are C20",
+           "the function estimator's numeric uncertainty (mean_covariance = J sigma^2 J^T) is not part of this property; "
+           "only its acceptance / refusal and predictor family are"]
 ASSUMPTIONS = ["k_means(x, m) returns m rows", "K + jitter I has only positive eigenvalues, so an integer Nystroem rank r "
                "keeps exactly r columns", "gp_type strings are ASCII (str.lower modelled by Char.toLower)",
                "the optimiser returns a latent vector with as many rows as L has columns; only 'advi' provides standard "
@@ -44,7 +37,8 @@ SPARSEFAM = ("sparse_cholesky", "sparse_nystroem")
 NYS = ("full_nystroem", "sparse_nystroem")
 FAMILY = {"full": "Full", "full_nystroem": "Full", "sparse_cholesky": "LandmarksCholesky", "fixed": "LandmarksCholesky",
           "sparse_nystroem": "Landmarks"}
-REASONS = [("nLandmarksNotNonnegInt", "'n_landmarks' should be a positive integer"),
+REASONS = [("rankNegative", "rank must not be negative"),
+           ("nLandmarksNotNonnegInt", "'n_landmarks' should be a positive integer"),
            ("rankNaN", "'rank' should be"),
            ("unknownGpType", "Unknown Gaussian Process type"),
            ("functionNystroem", "not available for the Function Estimator"),
@@ -513,10 +507,15 @@ def case_est(ctx, res, p):
                 res.oracle_fail("predictor_with_uncertainty accepted without input uncertainty", p,
                                 signature="C15:uncertainty-accepted")
         else:
-            want = "Full" if lmr is None else "Landmarks"
+            # no latent vector: full -> Full, sparse_cholesky / fixed -> Landmarks (conditioned on (x, y))
+            want = "Full" if gp in FULLFAM else "Landmarks"
             if fam != want:
-                res.oracle_fail("function estimator predictor family does not follow the landmarks", p,
-                                detail={"family": fam}, signature="C15:predictor-family")
+                sig = ("C15:function-full-type-explicit-landmarks-predictor" if gp in FULLFAM and lm_user is not None
+                       else "C15:predictor-family")
+                res.oracle_fail(f"function estimator predictor family {fam} does not belong to gp_type {gp}", p,
+                                detail={"family": fam, "expected": want, "landmark_rows": lmr}, signature=sig)
+            if gp in NYS:
+                res.oracle_fail("function estimator resolved to a Nystroem type", p, signature="C15:function-nystroem")
     # ---------------- correspondence with the Lean model
     if ctx["driver"] is not None:
         kept = out[2][1] if out[0] == "ok" and out[2] is not None else 1
@@ -531,7 +530,7 @@ def case_est(ctx, res, p):
             if okc and exp[2] is not None:
                 okc = mt[3] == exp[2]
             if okc and est == "function":
-                okc = mt[3] == str(out[4] if out[4] is not None else n)
+                okc = mt[3] == str(n if (out[1] in FULLFAM or out[4] is None) else out[4])
             if not okc:
                 res.corr_fail("model resolve differs from the fitted estimator", p, detail={"model": mo, "impl": exp})
         else:
@@ -643,6 +642,16 @@ def run(ctx, res):
            est_cell("time", 6, None, None, None, ["S", "fixed"]),
            est_cell("density", 6, None, 6, None, None),
            est_cell("density", 6, None, 8, None, ["S", "full"]),
+           # repaired function-estimator defects F1-F4, F6 and F5 (negative rank): regression cases
+           est_cell("function", 6, None, 8, None, None),
+           est_cell("function", 6, None, 6, None, ["S", "full"]),
+           est_cell("function", 6, None, None, None, ["S", "sparse_cholesky"]),
+           est_cell("function", 6, 3, 4, None, None),
+           est_cell("function", 6, None, 4, None, None, unc=True, sigma="vecN"),
+           est_cell("function", 6, None, 6, None, ["S", "fixed"], unc=True, sigma="vecN"),
+           est_cell("function", 6, None, 4, None, None, sigma="mat 2"),
+           est_cell("density", 12, 5, None, ["F", -0.5], None),
+           est_cell("density", 12, None, None, ["I", -12], None),
            est_cell("function", 6, 2, None, None, ["S", "full"]),
            est_cell("function", 6, None, 4, None, None, unc=True),
            est_cell("function", 6, None, 4, None, None, sigma="vecN"),
@@ -738,10 +747,10 @@ CLAIM = {
             "compute_conditional dispatches; uncertainty needs advi; no internal outcome outside the recorded regions. "
             "Tied to /repo by exhaustive function-level boundary grids and by fitting the estimators on the property's "
             "grid, with an independent rule/clean-failure oracle.",
-    "note": "For the three inference estimators no_internal, rules, shape_promise and pred_matches_type are full-strength "
-            "theorems (three defects found here were fixed in /repo meanwhile: 8089bef, 02e559e, e3730dc). The FunctionEstimator "
-            "still performs no validation and has three internal-error classes; negative ranks are accepted: _partial theorems "
-            "with counterexamples, registered as known findings. Nystroem column counts for fractional ranks are an input (C10).",
+    "note": "no_internal, rules, shape_promise and pred_matches_type are full-strength theorems for all four estimators "
+            "(after the repairs of the FunctionEstimator validation / noise-shape defects and of the negative-rank hole; the "
+            "old witnesses are replayed as regression cases on every run). Nystroem column counts for fractional ranks are "
+            "an input (C10).",
     "technique": "Lean 4 proof (case analysis over an exact decision model with unbounded integers) + exhaustive/sampled "
                  "differential correspondence + independent rule oracle",
 }
